@@ -7,6 +7,7 @@ import (
 	"go/constant"
 	"go/types"
 	"math/big"
+	"sort"
 	"strings"
 
 	"golang.org/x/tools/go/ssa"
@@ -334,9 +335,9 @@ func (s *State) ghostVal(name string, t types.Type) Value {
 		if es == nil || is == nil {
 			evalFail("ghost array %s: scalar index/element required", name)
 		}
-		v = Var("G:"+name, ArraySort(is, es))
+		v = Var("G:"+name+s.EpochGhost, ArraySort(is, es))
 	} else {
-		v = freshOf("G:"+name, t, nil, true)
+		v = freshOf("G:"+name+s.EpochGhost, t, nil, true)
 	}
 	s.Ghost[name] = v
 	return v
@@ -612,6 +613,51 @@ func (c *EvalCtx) evalCall(e *CallE) TV {
 			evalFail("payload: unknown type %s", ExprString(e.Args[1]))
 		}
 		return TV{V: c.eng.ifacePayload(x.V.(*Term), t), T: t}
+	case "forwarded":
+		// forwarded(i, "Method", args...): entry i of the ghost event log is a call of Method with exactly these arguments
+		if len(e.Args) < 2 {
+			evalFail("forwarded(i, \"Method\", args...)")
+		}
+		idx := c.convert(c.eval(e.Args[0]), types.Typ[types.Uint64]).V.(*Term)
+		ms, ok := e.Args[1].(*StrLit)
+		if !ok {
+			evalFail("forwarded: method name must be a string literal")
+		}
+		var args []Value
+		for _, a := range e.Args[2:] {
+			tv := c.eval(a)
+			if tv.C != nil {
+				evalFail("forwarded: argument %s needs an explicit type", ExprString(a))
+			}
+			args = append(args, tv.V)
+		}
+		t, err := c.eng.forwardedTerm(c.cur, idx, ms.Val, args)
+		if err != nil {
+			evalFail("%v", err)
+		}
+		return TV{V: t, T: types.Typ[types.Bool]}
+	case "evUnchangedBelow":
+		// every entry of the ghost event log below n is what it was in the old state
+		n := c.convert(c.eval(e.Args[0]), types.Typ[types.Uint64]).V.(*Term)
+		var cs []*Term
+		var names []string
+		for k := range c.cur.Ghost {
+			if strings.HasPrefix(k, "ev:") {
+				names = append(names, k)
+			}
+		}
+		sort.Strings(names)
+		for _, k := range names {
+			cur := c.cur.Ghost[k].(*Term)
+			old := c.old.evArray(k, cur.Sort.Elem)
+			if cur == old {
+				continue
+			}
+			T.fresh["q:e"]++
+			j := Var(fmt.Sprintf("e?%d", T.fresh["q:e"]), BV64)
+			cs = append(cs, Forall([]*Term{j}, Implies(BVCmp("bvult", j, n), Eq(Select(cur, j), Select(old, j)))))
+		}
+		return TV{V: And(cs...), T: types.Typ[types.Bool]}
 	case "memEq":
 		// memEq(a, b): the two byte slices have equal length and contents (quantified)
 		a, b := c.eval(e.Args[0]), c.eval(e.Args[1])
